@@ -60,7 +60,11 @@ i = s.index("## 8. Seeded changes and which checks catch them"); j = s.index("##
 s = s[:i] + "## 8. Seeded changes and which checks catch them\n\n" + \
     f"{kept} changes kept (all verified here: patch applies to HEAD, demo passes clean / fails changed, 51/51 baseline tests pass with the change). " \
     "Produced by fresh sub-agents that saw only the property text. `seeded/INDEX.md` has the same table; `seeded/<id>/meta.json` the details.\n\n" + \
-    tab + "\n\n---------------------------------------------------------------------------------------------\n\n" + s[j:]
+    tab + "\n\nOne candidate was dropped: `C16_m3` (`i <= start_iter` -> `i < start_iter` in `rar_step_false`). It was produced against " \
+    "the tree before repair fc78006; on the repaired tree the period counter equals `update_every - 1` at `start_iter`, a non-step at " \
+    "`i == start_iter` can then only be caused by a full store, and the change no longer alters any observable count (its demo passes " \
+    "with the change). The rule C16.R2 that had flagged it was over-constrained and was relaxed to accept both freeze conditions " \
+    "(a false alarm corrected in the machinery, not a finding).\n\n---------------------------------------------------------------------------------------------\n\n" + s[j:]
 open(p, 'w').write(s)
 print("kept", kept, "dropped", dropped)
 missed = [r for r in rows if r[5] == 'NO']
